@@ -149,6 +149,18 @@ COLLISION_DOCS = [
     ("no-dynamic-code-at-all", "import qmluic.QtWidgets\nQWidget {\n    id: root\n    QLabel { text: \"x\" }\n}\n"),
 ]
 
+# one facility, one use, one document: every console level, Math.min / max and % on doubles, in a callback and in a binding
+for _f, _stmt in (("log", 'console.log("x")'), ("debug", 'console.debug("x")'), ("info", 'console.info("x")'), ("warn", 'console.warn("x")'),
+                  ("error", 'console.error("x")'), ("max", "s.maximum = Math.max(s.value, 5)"), ("min", "s.maximum = Math.min(s.value, 5)"),
+                  ("fmod", "d.maximum = d.value % 2.0")):
+    COLLISION_DOCS.append((f"only-{_f}-in-a-callback", "import qmluic.QtWidgets\nQWidget {\n    id: root\n    QSpinBox { id: s }\n    QDoubleSpinBox { id: d }\n"
+                           f"    QPushButton {{ onClicked: {{ {_stmt} }} }}\n}}\n"))
+    COLLISION_DOCS.append((f"only-{_f}-in-a-binding", "import qmluic.QtWidgets\nQWidget {\n    id: root\n    QSpinBox { id: s }\n    QDoubleSpinBox { id: d }\n"
+                           f"    QLabel {{ text: {{ {_stmt}; return s.text; }} }}\n}}\n" if _f in ("log", "debug", "info", "warn", "error") else
+                           "import qmluic.QtWidgets\nQWidget {\n    id: root\n    QSpinBox { id: s }\n    QDoubleSpinBox { id: d }\n"
+                           + {"max": "    QSpinBox { minimum: Math.max(s.value, 5) }\n", "min": "    QSpinBox { minimum: Math.min(s.value, 5) }\n",
+                              "fmod": "    QDoubleSpinBox { minimum: d.value % 2.0 }\n"}[_f] + "}\n"))
+
 STRING_CHARS = ["<", ">", "&", '"', "'", "\\", "%", "%1", "?", "??/", "??=", " ", "\t", "\n", "\r", "\x01", "\x07", "\x1b", "\x7f",
                 "\x00" + "7", "\x00", "é", "\u0301", "\u0085", " ", "\U0001F600", "a", "*/", "//", "R\"(", "\\n", "\\x41"]
 
@@ -551,6 +563,18 @@ def api_sweep_docs():
             seen.add(sg["name"])
             on = "on" + sg["name"][0].upper() + sg["name"][1:]
             yield (f"api/{cls}::{sg['name']}/callback", place(f"; {on}: {{ }}") + "}\n")
+        # members the type information declares protected or private cannot be named from the support class: a call of
+        # one, in a callback or in a binding, must not be accepted
+        seen = set()
+        for m_ in c.get("slots", []) + c.get("methods", []):
+            if m_.get("access", "public") == "public" or m_["name"] in seen or m_.get("arguments"):
+                continue
+            if any(o["name"] == m_["name"] and o.get("access", "public") == "public" for o in c.get("slots", []) + c.get("methods", [])):
+                continue        # a public overload of the same name exists
+            seen.add(m_["name"])
+            yield (f"nonpublic/{cls}::{m_['name']}/callback", place("") + f"    QPushButton {{ onClicked: src.{m_['name']}() }}\n}}\n")
+            if m_.get("returnType", "void") in ("int", "bool", "QString"):
+                yield (f"nonpublic/{cls}::{m_['name']}/binding", place("") + f"    VObj {{ id: t; rb: src.{m_['name']}() == src.{m_['name']}() }}\n}}\n")
 
 
 def api_sweep(shard, nshards, payload):
@@ -566,6 +590,12 @@ def api_sweep(shard, nshards, payload):
             continue
         g = r["modes"]["generate"]
         t.inc("api_sweep_documents")
+        if cid.startswith("nonpublic/"):
+            t.inc("api_sweep_nonpublic_members")
+            t.distinct.add(cid)
+            if vc.accepted(g, r.get("has_syntax_error")):
+                t.violation("accepted-a-call-of-a-non-public-member", {"id": cid, "source": src})
+            continue
         if not vc.accepted(g, r.get("has_syntax_error")):
             t.inc("api_sweep_rejected")       # ambiguous overloads, incomparable gadgets, ...: nothing to compile
             continue
